@@ -183,7 +183,15 @@ def _patterns_for(rng, host, addr, port, hit):
 
     if hit:
         k = rng.choice(['exact', 'exact', 'addr', 'wild', 'wild2', 'cidr',
-                        'hashed', 'multi', 'neg_other'])
+                        'hashed', 'multi', 'neg_other', 'addr_wild',
+                        'addr_wild'])
+        if k == 'addr_wild':
+            # a wildcard over the peer *address*, while connecting by name
+            if ':' in addr:
+                w = addr.rsplit(':', 1)[0] + ':*'
+            else:
+                w = addr.rsplit('.', 1)[0] + '.' + rng.choice(['*', '?*'])
+            return [wrap(w)] if not ported else [f'[{w}]:{port}']
         if k == 'exact':
             return [wrap(host)]
         if k == 'addr':
@@ -207,7 +215,10 @@ def _patterns_for(rng, host, addr, port, hit):
             return [other_h, wrap(host), other_a]
         return [wrap(host), '!' + other_h]
     k = rng.choice(['other', 'other_addr', 'negated', 'wild_miss',
-                    'hashed_other', 'wrong_port'])
+                    'hashed_other', 'wrong_port', 'neg_addr_wild'])
+    if k == 'neg_addr_wild' and not ported and ':' not in addr:
+        # matches everything except hosts at the peer's address range
+        return ['*', '!' + addr.rsplit('.', 1)[0] + '.*']
     if k == 'other':
         return [other_h]
     if k == 'other_addr':
@@ -302,7 +313,10 @@ def gen_cases(tier, seed):
         cases.append({'kind': 'lie',
                       'lie': ['sign_other_key', 'sign_other_hash',
                               'cert_content_altered', 'cert_untrusted_ca',
-                              'cert_sig_other_key', 'honest'][i % 6],
+                              'cert_sig_other_key', 'honest',
+                              'cert_principal_not_utf8',
+                              'cert_principals_all_not_utf8',
+                              'cert_handbuilt_honest'][i % 9],
                       'chunk': rng.choice(['all', 'record', 'random']),
                       'cseed': rng.randrange(1 << 30)})
     return cases
@@ -568,6 +582,27 @@ def _run_lie(case, mon, viol):
                 cert_alg = b'ssh-ed25519-cert-v01@openssh.com'
 
                 cert_blob = bytes(blob)
+                if lie in ('cert_principal_not_utf8',
+                           'cert_principals_all_not_utf8',
+                           'cert_handbuilt_honest'):
+                    # hand-built (PROTOCOL.certkeys) and properly signed by
+                    # the trusted CA; only the principal names are unusual
+                    import struct as _st
+
+                    def _s(b):
+                        return _st.pack('>I', len(b)) + b
+                    pr = {'cert_principal_not_utf8': [b'db\xe9.example.com'],
+                          'cert_principals_all_not_utf8':
+                          [b'\xff\xfe\xfd', b'\xc3\x28'],
+                          'cert_handbuilt_honest': [b'testhost']}[lie]
+                    body = _s(cert_alg) + _s(os.urandom(32)) + \
+                        _s(real.pub) + _st.pack('>Q', 7) + \
+                        _st.pack('>I', 2) + _s(b'id') + \
+                        _s(b''.join(_s(x) for x in pr)) + \
+                        _st.pack('>Q', NOW - 10) + \
+                        _st.pack('>Q', NOW + 1000) + _s(b'') + _s(b'') + \
+                        _s(b'') + _s(ca.public_data)
+                    cert_blob = body + _s(ca.sign(body, b'ssh-ed25519'))
 
                 class CertKey:
                     alg = b'ssh-ed25519'
@@ -613,7 +648,7 @@ def _run_lie(case, mon, viol):
                 if ok:
                     res[1].abort()
                 mon['lie_cases'] += 1
-                if lie == 'honest':
+                if lie in ('honest', 'cert_handbuilt_honest'):
                     if not ok:
                         viol.append({'mechanism': 'trusted_host_key_refused',
                                      'detail': f'honest reference server: '
